@@ -1,0 +1,36 @@
+//go:build verif
+// +build verif
+
+package config
+
+import "context"
+
+// VerifStream is a scripted discovery stream for the verification harness.
+type VerifStream interface {
+	Send(subscribed, unsubscribed []string) error
+	Recv() error
+}
+
+// VerifSubClient exposes the (unexported) subscription client with a scripted stream factory.
+type VerifSubClient struct {
+	c *svcDiscoveryClient
+}
+
+func VerifNewSubClient(maker func(ctx context.Context) (VerifStream, error)) *VerifSubClient {
+	return &VerifSubClient{c: newSvcDiscoveryClient("verif", func(ctx context.Context) (svcDiscoveryStream, error) {
+		s, err := maker(ctx)
+		if err != nil {
+			return nil, err
+		}
+		return s, nil
+	})}
+}
+
+func (v *VerifSubClient) Subscribe(name string)   { v.c.Subscribe(name) }
+func (v *VerifSubClient) Unsubscribe(name string) { v.c.Unsubscribe(name) }
+
+// RunOnce runs one connection attempt (the body of the retry loop of Run, without its 1 s pause).
+func (v *VerifSubClient) RunOnce(ctx context.Context) { v.c.run(ctx) }
+
+// Run is the real retry loop.
+func (v *VerifSubClient) Run(ctx context.Context) { v.c.Run(ctx) }
